@@ -166,3 +166,66 @@ def recount(ctx, R, prog):
         ctx.check(R, w is None, f.where(a), "the old local_free list is linked behind the tail before local_free = head", key=R + ":recount:append", witness=w)
         w = rl.followed_by(f, a, lambda e: subs and e == subs[0][0])
         ctx.check(R, w is None, f.where(a), "the recount follows the take-over on every path", key=R + ":recount:follow", witness=w)
+
+
+def flag_integrity(ctx, R, prog):
+    """C01.R10 / C03.R4: the page flag byte is only changed through its two setters; has_aligned is cleared only where the page is all-free."""
+    n = 0
+    for f in prog.fns.values():
+        for a, lhs, rhs, op in f.stores():
+            l = f.strip(lhs)
+            m = f.nodes[l]
+            if m["k"] != "MemberExpr":
+                continue
+            if m["fld"] == "full_aligned" or (m["fld"] == "flags" and m.get("rec") == "mi_page_s"):
+                n += 1
+                ctx.fail(R, f.where(a), "store to the whole flag byte (%s) changes in_full and has_aligned together: a live interior (aligned) pointer would later be freed as a block start" % f.text(l),
+                         key=R + ":flags:whole:%s" % f.name)
+            elif m["fld"] == "has_aligned":
+                n += 1
+                ctx.check(R, f.name == "mi_page_set_has_aligned", f.where(a), "has_aligned is written only by its setter", key=R + ":flags:has_aligned:%s" % f.name)
+            elif m["fld"] == "in_full" and m.get("rec") != "mi_page_s":
+                n += 1
+                ctx.check(R, f.name == "mi_page_set_in_full", f.where(a), "in_full is written only by its setter", key=R + ":flags:in_full:%s" % f.name)
+    for f in prog.fns.values():
+        for c in f.calls("mi_page_set_has_aligned"):
+            n += 1
+            v = f.cv(rl.arg(f, c, 1))
+            if v == 0:
+                ok = f.name in ("_mi_page_free", "_mi_page_retire")   # both require mi_page_all_free(page) on entry (C01.R6)
+                ctx.check(R, ok, f.where(c), "has_aligned is cleared only where the page is all-free (%s)" % f.name, key=R + ":flags:clear:%s" % f.name)
+            else:
+                ctx.check(R, v == 1, f.where(c), "has_aligned is set with the constant true", key=R + ":flags:set:%s" % f.name)
+    if n < 4:
+        raise AnalysisBroken("flag integrity: only %d flag sites found" % n)
+
+
+def forced_purge_not_skipped(ctx, R, prog):
+    """C11.R5 / C18.R5: in the arena-level purge drivers (whose expiry values are hints that are reset even when work remains) an early
+    return that depends on the expiry value is taken only when force is false."""
+    for name, work in (("mi_arenas_try_purge", "mi_arena_try_purge"), ("mi_arena_try_purge", "mi_arena_purge_range")):
+        f = prog.fn(name)
+        cfg = f.cfg
+        force = next((f.param_id(k) for k, p in enumerate(f.d["params"]) if p["n"] == "force"), None)
+        exps = {dd["d"] for _, dd in rl.local_decl(f, lambda dd: "init" in dd and any(f.nodes[x]["k"] == "AtomicExpr" and "expire" in f.text(f.nodes[x]["ptr"]) for x in f.walk(dd["init"])))}
+        if force is None or not exps:
+            raise AnalysisBroken("forced purge rule: force parameter / expiry local not found in %s" % name)
+        n = 0
+        for p, outs in cfg.edges.items():
+            for q, lab in outs:
+                fs = cfg.facts(lab)
+                if not any(any(f.nodes[x]["k"] == "DeclRefExpr" and f.nodes[x]["d"] in exps for x in f.walk(e)) for e, pol in fs):
+                    continue
+                if rl.can_reach_call(f, q, lambda m: m.get("callee") == work):
+                    continue
+                if not hasattr(cfg, "_can_exit"):
+                    list(rl.edges_with_fact(f, lambda e, pol: False))
+                if q not in cfg._can_exit:
+                    continue
+                n += 1
+                # a skip edge decided by the expiry value: must lie behind `!force`
+                w = cfg.guarded(p, lambda e, pol: isinstance(e, int) and rl.fact_null(f, e, pol, rl.is_var(f, force)))
+                ctx.check(R, w is None, f.where(fs[0][0]), "skipping %s because of the expiry value `%s` only when force is false (the expiry is a hint: a forced collect must still purge)"
+                          % (work, f.text(fs[0][0])), key=R + ":forced:%s" % name, witness=w)
+        if n == 0:
+            raise AnalysisBroken("forced purge rule: no expiry-decided skip edge in %s" % name)
